@@ -10,7 +10,7 @@ use serde_json::{json, Value};
 pub const DEF: PropDef = PropDef {
     id: "C03",
     level: "exploration",
-    rule: "complete enumeration of operator x operand cells over a 65-value universe U (every kind, every boundary the coercions inspect): 13 binary operators x U^2, unary x U, list operands x U_small^3, side-effecting operands (roll) for short-circuit and left-to-right order, compound assignment x U^2, build/knock x U x 1..3, every cell pushed through 5 statement positions, every operator applied to aliased operands (same variable, copies by assignment / argument passing / storing into an array) x U, (thorough) depth-2 nestings U^3 x 13^2, plus the same cells evaluated directly on rrss::exec::val::Val; expected value from an independent reference table; non-trivial = the reference defines the outcome and the program was executed and compared; distinct = distinct program text",
+    rule: "complete enumeration of operator x operand cells over a 75-value universe U (every kind, every boundary the coercions inspect): 13 binary operators x U^2, unary x U, list operands x U_small^3, side-effecting operands (roll) for short-circuit and left-to-right order, compound assignment x U^2, build/knock x U x 1..3, every cell pushed through 5 statement positions, every operator applied to aliased operands (same variable, copies by assignment / argument passing / storing into an array) x U, (thorough) depth-2 nestings U^3 x 13^2, plus the same cells evaluated directly on rrss::exec::val::Val; expected value from an independent reference table; non-trivial = the reference defines the outcome and the program was executed and compared; distinct = distinct program text",
     assumptions: &[
         "reference coercion tables transcribed from the property statement and anchored on the repository's own val unit tests (checked by ./check selftest)",
         "cells the properties leave open (spelling of non-finite numbers, padded numerals, non-integer repeat counts ...) are counted as skipped.<reason> and not judged",
